@@ -69,6 +69,25 @@ class ScriptReceiver(PyObj):
         raise Unsupported('ScriptReceiver %s::%s' % (trait, method))
 
 
+class StateLockStub(PyObj):
+    """IterationStateLock seen by Start: records the generations it is asked to wait for"""
+    name = 'IterationStateLock'
+
+    def __init__(self):
+        self.calls = []
+
+    def trait_call(self, ex, trait, method, args):
+        if method == 'wait_for_update':
+            self.calls.append(ex.concretize(args[1]))
+            return unit()
+        if trait == 'Clone':
+            return self
+        raise Unsupported('StateLockStub ' + method)
+
+    def deref_model(self, ex, r):
+        return r
+
+
 def cut_batches(ex, script, mode):
     """cut a sender's script into batches"""
     # End flushes its batchers at every FlushAndRestart, so a batch never continues past one
@@ -161,7 +180,7 @@ def norm_wm_runs(seq):
 
 
 def start_harness(w, nsenders, iters, max_len, timed=True, cut='any', adaptive=False, max_timeouts=0,
-                  progress=True):
+                  progress=True, lock=False):
     new = w.impls[(None, 'Start')]['new'][0]
     setup = w.impls[('Operator', 'Start')]['setup'][0]
     nxt = w.impls[('Operator', 'Start')]['next'][0]
@@ -177,12 +196,40 @@ def start_harness(w, nsenders, iters, max_len, timed=True, cut='any', adaptive=F
             scripts.append(sc)
         batches = [cut_batches(ex, sc, cut) for sc in scripts]
         rx = ScriptReceiver(w, coords, batches, max_timeouts if adaptive else 0)
-        st = ex.call_function(new, [rx, none()])
+        lk = StateLockStub() if lock else None
+        from mirsym.models_coll import ArcModel
+        st = ex.call_function(new, [rx, some(ArcModel(lk)) if lock else none()])
         holder = [st]
         md = exec_metadata(w, hlib.coord(w, 1, 0, 0), adaptive)
         ex.call_function(setup, [Ref(holder, 0), Ref([md], 0)])
         total = sum(len(s) for s in scripts)
-        out = hlib.drive(ex, nxt, holder, 2 * total + 8)
+        if lock:
+            # C10: the first element of iteration k >= 1 passes only after wait_for_update(2k)
+            out, itn, waited = [], 0, False
+            while True:
+                n0 = len(lk.calls)
+                el = ex.call_function(nxt, [Ref(holder, 0)])
+                out.append(el)
+                for g in lk.calls[n0:]:
+                    if g != 2 * itn:
+                        raise Violation('Start waits for state generation %d in iteration %d (expected %d): it would '
+                                        'read an older state or block forever' % (g, itn, 2 * itn), hlib._wit(ex))
+                    waited = True
+                if el.variant == 'FlushAndRestart':
+                    itn += 1
+                    waited = False
+                elif el.variant == 'Terminate':
+                    break
+                elif itn >= 1 and not waited:
+                    raise Violation('Start lets an element of iteration %d pass without waiting for the state of the '
+                                    'previous round (wait_for_update not called)' % itn, hlib._wit(ex),
+                                    {'output': [repr(x) for x in out]})
+                elif itn >= 1:
+                    hlib.cover(ex, 'waited_for_state')
+                if len(out) > 2 * total + 8:
+                    raise Violation('Start does not terminate', hlib._wit(ex))
+        else:
+            out = hlib.drive(ex, nxt, holder, 2 * total + 8)
         if ex.env.get('native'):
             # replay: the model run above fixed the arrival order; now the real Start gets the same batches
             # in the same order (a model timeout = the sender sleeping 3x max_delay before the next batch)
